@@ -166,7 +166,7 @@ type verifRecord struct {
 	// Size of the inventoried root if it is a directory (not included in
 	// Count/Size), else -1.
 	RootDirSize *int64 `json:"root_dir_size,omitempty"`
-	Crash  string   `json:"crash,omitempty"`
+	Crash       string `json:"crash,omitempty"`
 }
 
 // VerifPoint marks a named point in the execution.  See package comment at
